@@ -1,7 +1,7 @@
 //! C16 — two-card hand from a bit-set: succeeds exactly for two card bits, round-trips.
 
 use crate::common::{Ctx, Input, Rep};
-use crate::drive::{guard, merge_states, par_run, Rng, St};
+use crate::drive::{self, guard, merge_states, par_run, Rng, St};
 use crate::model;
 use crate::props::bad_replay;
 use ckc_rs::cards::binary_card::BC64;
@@ -185,6 +185,36 @@ pub fn run(ctx: &Ctx) -> Rep {
     });
     let (rj, xsj) = merge_states(sj);
     rep.merge(rj);
+    // field-structured values (see drive::field_structured_u64): repeated and cancelling bytes / words /
+    // nibbles; the fully replicated ones also with every one and two further bits
+    let structured = drive::field_structured_u64(seed);
+    let n_struct = structured.len();
+    let parts = if ctx.smoke() { 1 } else { 64 };
+    let sf = par_run(ctx, parts, mk, |st, pi| {
+        let step = if ctx.smoke() { 997 } else { 1 };
+        for (k, &v) in structured.iter().enumerate().skip(pi).step_by(parts * step) {
+            check(st, v);
+            st.rep.distinct += 1;
+            let replicated = [4u32, 8, 16, 32].iter().any(|&w| {
+                let m = (1u64 << w) - 1;
+                v != 0 && (0..64 / w).all(|f| (v >> (w * f)) & m == v & m)
+            });
+            if replicated && !ctx.smoke() {
+                for a in 0..64 {
+                    check(st, v ^ (1u64 << a));
+                    for b in (a + 1)..64 {
+                        check(st, v ^ (1u64 << a) ^ (1u64 << b));
+                    }
+                }
+                st.rep.add("replicated_field_values_with_every_one_and_two_bit_change", 1);
+                st.rep.distinct += 2080;
+            }
+            let _ = k;
+        }
+    });
+    let (rf, xsf) = merge_states(sf);
+    rep.merge(rf);
+    rep.add("field_structured_values", n_struct as u64);
     let s = par_run(ctx, chunks, mk, |st, ch| {
         let mut rng = Rng::new(seed, 0xC16_0000 + ch as u64);
         for it in 0..(n_rand / chunks) {
@@ -210,7 +240,7 @@ pub fn run(ctx: &Ctx) -> Rep {
     let (r, xs) = merge_states(s);
     rep.merge(r);
     let mut acc = mk();
-    for x in xs0.into_iter().chain(xsj).chain(xs) {
+    for x in xs0.into_iter().chain(xsj).chain(xsf).chain(xs) {
         acc.ok += x.ok;
         acc.not_enough += x.not_enough;
         acc.too_many += x.too_many;
